@@ -77,6 +77,8 @@ func (s *base) onWrite(b []byte) {
 		case s.rejected <- binary.BigEndian.Uint32(b[5:]):
 		default:
 		}
+	case 96:
+		s.event("F")
 	case 93:
 		if s.onAdjust != nil && len(b) >= 9 {
 			s.onAdjust(binary.BigEndian.Uint32(b[5:]))
@@ -348,6 +350,38 @@ func execSnd(o hx.Op) string {
 	s.mu.Unlock()
 	if ovf {
 		s.muxEnded(5 * time.Second)
+	}
+	// CloseWrite, then a Write on stdout and on stderr: (0, io.EOF) and nothing on the wire
+	if o.Str("eof") == "1" && !ovf && !s.p.isClosed() {
+		s.mu.Lock()
+		allDone := doneCount == len(writers)
+		s.mu.Unlock()
+		if allDone {
+			allOK := true
+			for _, r := range results {
+				if r.err != nil {
+					allOK = false
+				}
+			}
+			if allOK {
+				ch.CloseWrite()
+				for _, code := range []uint32{0, 1} {
+					var wr io.Writer = ch
+					if code == 1 {
+						wr = ch.Stderr()
+					}
+					n, err := wr.Write([]byte{1})
+					switch {
+					case n == 0 && err == io.EOF:
+						s.event(fmt.Sprintf("Z%d=eof", code))
+					case err == nil:
+						s.event(fmt.Sprintf("Z%d=wrote%d", code, n))
+					default:
+						s.event(fmt.Sprintf("Z%d=err", code))
+					}
+				}
+			}
+		}
 	}
 	clientClosedFirst := s.p.isClosed()
 	if !clientClosedFirst {
@@ -825,6 +859,9 @@ func genPair(g *hx.Gen) {
 func genSnd(g *hx.Gen) {
 	r := g.R
 	m := r.Range(9, 64)
+	if r.Chance(1, 6) {
+		m = 9
+	}
 	switch r.Intn(12) {
 	case 0:
 		m = 1 << 15
@@ -851,7 +888,7 @@ func genSnd(g *hx.Gen) {
 		var szs []string
 		for j := r.Range(1, 3); j > 0; j-- {
 			z := r.PickInt(0, 1, m-1, m, m+1, 2*m, r.Range(0, 40*min(m, 64)), r.Range(0, 2000))
-			if r.Chance(1, 25) && m >= 1<<15 {
+			if r.Chance(1, 4) && m >= 1<<15 && m <= 1<<31 {
 				z = r.Range(100000, 200000)
 				g.Stat("snd.write-100k+")
 			}
@@ -888,7 +925,7 @@ func genSnd(g *hx.Gen) {
 	if r.Chance(2, 3) && sum < need { // usually give enough window to finish
 		grants = append(grants, need-sum+r.Intn(50))
 	}
-	if nw == 1 && r.Chance(1, 12) { // an adjust that overflows the uint32 window
+	if nw == 1 && r.Chance(1, 5) { // an adjust that overflows the uint32 window
 		grants = append(grants, 1<<32-1)
 		if r.Bool() {
 			w0 = 1<<32 - 1 - r.Intn(3)
@@ -917,7 +954,42 @@ func genSnd(g *hx.Gen) {
 	} else { // the run must end stalled with every granted byte used
 		g.Stat("snd.window-insufficient-ends-stalled")
 	}
-	g.Emit("snd dir=%s w0=%d m=%d pol=%s grants=%s writers=%s", r.PickStr("out", "in"), w0, m, pol, hx.JoinInts(grants), strings.Join(ws, ","))
+	eof := r.Intn(2)
+	dir := r.PickStr("out", "in")
+	feat := map[string]bool{"multi-writer": nw > 1, "stall": pol == "stall", "eager": pol != "stall", "w0=0": w0 == 0, "w0<m": w0 < m,
+		"m=9": m == 9, "m>=32768": m >= 1<<15 && m <= 1<<31, "invalid-m": m < 9 || m > 1<<31, "window-insufficient": w0+gsum < total,
+		"closewrite": eof == 1, "dir-in": dir == "in"}
+	for i := 0; i < nw; i++ {
+		switch {
+		case codes[i] == 0:
+			feat["stdout"] = true
+		case codes[i] == 1:
+			feat["stderr"] = true
+		default:
+			feat["ext>1"] = true
+		}
+	}
+	for _, w := range ws {
+		for _, z := range strings.Split(w[strings.Index(w, ":")+1:], "+") {
+			if z == "0" {
+				feat["zero-write"] = true
+			}
+			if v, _ := strconv.Atoi(z); v >= 100000 {
+				feat["write>=2M"] = true
+			}
+		}
+	}
+	for _, x := range grants {
+		if x == 0 {
+			feat["zero-grant"] = true
+		}
+		if x == 1<<32-1 {
+			feat["overflow-grant"] = true
+		}
+	}
+	notePairs(sndFeatures, feat)
+	g.Emit("snd dir=%s w0=%d m=%d pol=%s grants=%s writers=%s eof=%d", dir, w0, m, pol, hx.JoinInts(grants), strings.Join(ws, ","), eof)
+	_ = dir
 }
 
 // generator-side mirror of the receiver accounting (only to keep reads from blocking and to aim at thresholds)
@@ -925,18 +997,21 @@ type grcv struct{ win, consumed, pend, ext int }
 
 const gW, gM = 64 * 32768, 32768
 
-func (r *grcv) adjust(n int) {
+func (r *grcv) adjust(n int) bool {
 	r.consumed += n
 	if gW-r.win > 3*gM || r.win < gW/2 {
 		r.win += r.consumed
 		r.consumed = 0
+		return true
 	}
+	return false
 }
 
 func genRcv(g *hx.Gen) {
 	r := g.R
 	st := &grcv{win: gW}
 	var toks []string
+	feat := map[string]bool{}
 	n := r.Range(3, 24)
 	dead := false
 	for i := 0; i < n && !dead; i++ {
@@ -945,8 +1020,10 @@ func genRcv(g *hx.Gen) {
 			l := r.PickInt(1, 2, 100, gM-1, gM, r.Range(1, gM), r.Range(1, 3000))
 			if l > st.win {
 				g.Stat("rcv.window-exceeded")
+				feat["window-exceeded"] = true
 				dead = true
 			}
+			feat["stdout-data"] = true
 			toks = append(toks, fmt.Sprintf("d%d", l))
 			st.win -= l
 			st.pend += l
@@ -957,10 +1034,14 @@ func genRcv(g *hx.Gen) {
 				g.Stat("rcv.window-exceeded")
 				dead = true
 			}
+			feat["burst"] = true
+			if cnt*l > st.win {
+				feat["window-exceeded"] = true
+			}
 			toks = append(toks, fmt.Sprintf("D%dx%d", cnt, l))
 			st.win -= cnt * l
 			st.pend += cnt * l
-		case c < 54: // extended data
+		case c < 52: // extended data
 			code := r.PickInt(1, 1, 2, 7, 1<<31)
 			l := r.PickInt(1, 100, gM, r.Range(1, gM))
 			if l > st.win {
@@ -970,22 +1051,29 @@ func genRcv(g *hx.Gen) {
 			st.win -= l
 			if code == 1 {
 				st.ext += l
+				feat["stderr-data"] = true
 			} else {
-				st.adjust(l)
+				if st.adjust(l) {
+					feat["adjust-sent"] = true
+				}
 				g.Stat("rcv.discarded-ext")
+				feat["discarded-ext"] = true
 			}
-		case c < 58:
+		case c < 59:
 			switch r.Intn(3) {
 			case 0:
 				toks = append(toks, "d0") // zero-length data: ignored
+				feat["zero-len"] = true
 			case 1:
 				toks = append(toks, fmt.Sprintf("d%d", gM+r.Range(1, 3))) // larger than maxIncomingPayload
 				dead = true
 				g.Stat("rcv.too-large")
+				feat["too-large"] = true
 			case 2:
 				toks = append(toks, fmt.Sprintf("b%d.%d", r.Range(1, 50), r.Range(51, 60))) // wrong length field
 				dead = true
 				g.Stat("rcv.wrong-length")
+				feat["wrong-length"] = true
 			}
 		default: // read
 			if st.pend == 0 && st.ext == 0 {
@@ -1013,11 +1101,78 @@ func genRcv(g *hx.Gen) {
 				toks = append(toks, fmt.Sprintf("r%d", nn))
 				st.pend -= k
 			}
-			st.adjust(k)
+			if st.adjust(k) {
+				feat["adjust-sent"] = true
+			}
+			feat["read-1"] = feat["read-1"] || nn == 1
+			feat["read>avail"] = feat["read>avail"] || nn > avail
+			feat["read-stderr"] = feat["read-stderr"] || useExt
 			g.Stat("rcv.read")
 		}
 	}
-	g.Emit("rcv dir=%s steps=%s", r.PickStr("out", "in"), strings.Join(toks, ","))
+	dir := r.PickStr("out", "in")
+	feat["dir-in"] = dir == "in"
+	notePairs(rcvFeatures, feat)
+	g.Emit("rcv dir=%s steps=%s", dir, strings.Join(toks, ","))
+}
+
+// ---- feature-pair coverage counters (pair.<a>+<b>), per op family
+var sndFeatures = []string{"multi-writer", "stdout", "stderr", "ext>1", "zero-write", "write>=2M", "stall", "eager", "w0=0", "w0<m", "m=9",
+	"m>=32768", "invalid-m", "overflow-grant", "zero-grant", "window-insufficient", "closewrite", "dir-in"}
+var rcvFeatures = []string{"burst", "stdout-data", "stderr-data", "discarded-ext", "zero-len", "too-large", "wrong-length", "window-exceeded",
+	"read-1", "read>avail", "read-stderr", "adjust-sent", "refill-race", "dir-in"}
+var pairCount = map[string]int{}
+
+func notePairs(list []string, feat map[string]bool) {
+	for i, a := range list {
+		if !feat[a] {
+			continue
+		}
+		for _, b := range list[i+1:] {
+			if feat[b] {
+				pairCount[a+"+"+b]++
+			}
+		}
+	}
+}
+
+// pairs that cannot occur in one op (alternatives of one choice, or the first of them ends the op / makes the other moot)
+func impossiblePair(a, b string) bool {
+	in := func(x string, set ...string) bool {
+		for _, y := range set {
+			if x == y {
+				return true
+			}
+		}
+		return false
+	}
+	both := func(set ...string) bool { return in(a, set...) && in(b, set...) }
+	switch {
+	case both("stall", "eager"), both("m=9", "m>=32768", "invalid-m"), both("too-large", "wrong-length", "window-exceeded"):
+		return true
+	case (a == "invalid-m" || b == "invalid-m") && !both("invalid-m", "dir-in", "w0=0", "w0<m"): // the open fails: nothing else happens
+		return true
+	case both("overflow-grant", "multi-writer", "window-insufficient", "stall"): // overflow grants: single writer, eager, ends the op
+		return a == "overflow-grant" || b == "overflow-grant" || false
+	case both("write>=2M", "m=9"): // big writes only with big packets (packet budget)
+		return true
+	case (a == "refill-race" || b == "refill-race") && (in(a, "too-large", "wrong-length", "window-exceeded") || in(b, "too-large", "wrong-length", "window-exceeded")):
+		return true
+	}
+	return false
+}
+
+func emitPairs(g *hx.Gen) {
+	for _, list := range [][]string{sndFeatures, rcvFeatures} {
+		for i, a := range list {
+			for _, b := range list[i+1:] {
+				if impossiblePair(a, b) {
+					continue
+				}
+				g.StatN("pair."+a+"+"+b, pairCount[a+"+"+b])
+			}
+		}
+	}
 }
 
 // genRace: the receive window is exactly exhausted, then every Read's window adjust is answered by the peer at once,
@@ -1034,11 +1189,34 @@ func genRace(g *hx.Gen) {
 	case 2:
 		toks = append(toks, "D32x32768", "e1.32768", "D31x32768")
 	}
+	feat := map[string]bool{"refill-race": true, "burst": true, "stdout-data": true, "adjust-sent": true, "read>avail": true, "read-1": true}
+	if r.Chance(1, 3) { // a discarded extended packet in the middle of the fill: credited at once, the window is exhausted all the same
+		toks = []string{"D32x32768", "e7.32768", "D32x32768"}
+		feat["discarded-ext"] = true
+	}
+	stderrLeft := 0
+	if strings.Contains(strings.Join(toks, ","), "e1.") {
+		stderrLeft = 32768
+		feat["stderr-data"] = true
+	}
 	for i := r.Range(30, 90); i > 0; i-- {
 		toks = append(toks, fmt.Sprintf("R%d", r.PickInt(32768, 32768, 1, 100, 4096, 65536, 98305, 1<<20)))
+		if r.Chance(1, 12) {
+			toks = append(toks, "d0")
+			feat["zero-len"] = true
+		}
+		if stderrLeft > 0 && r.Chance(1, 8) { // (no refill for stderr reads: the window simply re-opens by that much)
+			n := r.PickInt(1, 100, 4096)
+			toks = append(toks, fmt.Sprintf("s%d", n))
+			stderrLeft -= n
+			feat["read-stderr"] = true
+		}
 	}
 	g.Stat("rcv.race-refill")
-	g.Emit("rcv dir=%s steps=%s", r.PickStr("out", "in"), strings.Join(toks, ","))
+	dir := r.PickStr("out", "in")
+	feat["dir-in"] = dir == "in"
+	notePairs(rcvFeatures, feat)
+	g.Emit("rcv dir=%s steps=%s", dir, strings.Join(toks, ","))
 }
 
 func gen(g *hx.Gen) {
@@ -1055,6 +1233,7 @@ func gen(g *hx.Gen) {
 			genRcv(g)
 		}
 	}
+	emitPairs(g)
 }
 
 func main() {
